@@ -229,4 +229,24 @@ static void _skip_bytes(binson_parser *parser, size_t size)
      'expect': {'C03': 'sign fill'}},
     {'name': 'encoder_big_endian', 'edits': [(W, "        buffer[1 + i] = (uint8_t) (uval & 0xFFU);", "        buffer[size - i] = (uint8_t) (uval & 0xFFU);")],
      'expect': {'C05': 'little-endian', 'C10': 'byte order', 'C04': None}},
+    {'name': 'order_allows_duplicates', 'edits': [(P, "                    if (r >= 0) {\n                        parser->error_flags = BINSON_ERROR_FORMAT;", "                    if (r > 0) {\n                        parser->error_flags = BINSON_ERROR_FORMAT;")],
+     'expect': {'C02': 'new field name is recorded'}},
+    {'name': 'cmp_name_empty_is_equal', 'edits': [(P, """    if (a->bsize == b->bsize) {
+        return 0;
+    }
+""", """    if (a->bsize == b->bsize || a->bsize == 0 || b->bsize == 0) {
+        return 0;
+    }
+""")],
+     'expect': {'C02': '_cmp_name can answer', 'C07': '_cmp_name can answer'}},
+    {'name': 'cmp_name_prefix_only', 'edits': [(P, """    if (r != 0) {
+        return r;
+    }
+
+    /* Equal prefix""", """    if (r != 0 || a->bsize > 0) {
+        return r;
+    }
+
+    /* Equal prefix""")],
+     'expect': {'C07': '_cmp_name can answer'}},
 ]
